@@ -1,6 +1,8 @@
 import RimeModel.Session.Commit
 import RimeModel.Session.InvProc
 import RimeModel.Session.PunctComposeOK
+import RimeModel.Session.Shape
+import RimeModel.Session.KeyBinderCommit
 /-!
 C03 — what is committed is what was shown, and it is delivered exactly once.  Property theorems only.
 Model: RimeModel/Session/* (see C02).  `env.format` is the shape formatter (identity when full_shape is off).
@@ -107,6 +109,76 @@ example :
     let c1 := Ctx.pushInput env c 46
     (view env c1).preview = [65, 0xe3, 0x80, 0x82] ∧ punctTranslated c1 = true ∧
     (runOps env c [.key 46 0]).commitBuf = [65, 0xe3, 0x80, 0x82] ∧ (runOps env c [.key 46 0]).isComposing = false := by
+  decide
+
+/-- (b) for every state reachable on a schema WITH A KEY BINDER (`runOpsK`: bindings redirected through the nested chain,
+option actions incl. those that change `full_shape`; both recomposition functions with `ComposeSpec`): selecting a
+candidate that covers the rest of the input commits / previews exactly the text shown, in the environment `envOf b` of
+either shape -/
+theorem select_to_end_reachable_keybinder (envOf : Bool → Env) (hrc : ∀ b, ComposeSpec (envOf b).recompose) (c0 : Ctx)
+    (h0 : c0.input = [] ∧ c0.caret = 0 ∧ c0.comp.segs = [] ∧ c0.comp.input = []) (ops : List Op) (b : Bool)
+    (g : Seg) (i : Nat) (cd : Cand)
+    (hlast : (runOpsK envOf c0 ops).comp.segs.getLast? = some g) (hcand : g.candAt i = some cd)
+    (hstop : cd.stop = (runOpsK envOf c0 ops).input.length) (hg : g.stop = (runOpsK envOf c0 ops).input.length)
+    (hd : (runOpsK envOf c0 ops).getOption "dumb" = false) :
+    let c := runOpsK envOf c0 ops
+    let c' := (Ctx.select (envOf b) c i).1
+    (c.getOption "_auto_commit" = true → c'.commitBuf = c.commitBuf ++ (envOf b).format (shownPrefix c ++ cd.text)) ∧
+    (c.getOption "_auto_commit" = false → c'.commitText = shownPrefix c ++ cd.text ∧ c'.commitBuf = c.commitBuf) := by
+  have hinv : Inv (runOpsK envOf c0 ops) :=
+    runOpsK_inv hrc ops ⟨⟨by rw [h0.1, h0.2.1]; exact Nat.le_refl _, by rw [h0.2.2.1]; exact SegsOK.nil⟩,
+      by rw [h0.2.2.2, h0.1]; exact Nat.le_refl _⟩
+  exact select_to_end (envOf b) _ g i cd hlast hcand hstop hg hinv.cinput_le hd
+
+/-- (d) **a key bound to an option action delivers nothing**: when the binding the key binder finds for a key is `toggle:`,
+`set_option:` or `unset_option:` (plain switch, radio group, switch index, or an option no switch declares), the key is
+reported handled and the session's commit buffer is exactly what it was — whatever the recomposition the option change
+triggers.  (Also true of ReinterpretPagingKey's `PushInput`, which runs before the lookup.) -/
+theorem keybinder_option_action_delivers_nothing (env : Env) (reent : Key → Ctx → Ctx × Bool) (k : Key) (c : Ctx) (b : KbBinding)
+    (hne : env.bindings ≠ []) (hre : (kbReinterpret env k c).2 = false)
+    (hb : kbFind env k (kbReinterpret env k c).1 = some b) (ha : b.action.isOption = true) :
+    (kbProcess reent env k c).2 = .accepted ∧ (kbProcess reent env k c).1.commitBuf = c.commitBuf := by
+  unfold kbProcess
+  simp only [hne, if_false, hre, Bool.false_eq_true, hb]
+  exact ⟨trivial, by rw [kbPerform_option_commitBuf reent b.action ha, kbReinterpret_commitBuf]⟩
+
+/-- non-vacuity: Shift+space bound to `toggle: full_shape` while `a` is being composed — handled, nothing delivered, the
+option is on afterwards; then space commits the candidate through the shape formatter of the new value, once -/
+example :
+    let cfg : PSegCfg := { alphabet := [97], initials := [97], finals := [], delimiters := [],
+                           translate := fun _ g => if g.tags.abc then [Cand.mk [65] [] [] g.start g.stop true] else [] }
+    let envOf : Bool → Env := fun full =>
+      { pageSize := 5, alphabet := [97], initials := [97], processors := [.keyBinder, .speller, .selector, .expressEditor],
+        bindings := [⟨.always, 32, 1, .toggle "full_shape"⟩], format := if full then shapeFormat else id, recompose := composeP cfg }
+    let c := runOpsK envOf { options := [("_auto_commit", true)] } [.key 97 0]
+    let r := apiStepK envOf c (.key 32 1)
+    r.2.ok = true ∧ r.1.commitBuf = [] ∧ r.1.getOption "full_shape" = true ∧ r.1.input = [97] ∧
+    (runOpsK envOf r.1 [.key 32 0]).commitBuf = [0xef, 0xbc, 0xa1] ∧
+    (apiStepK envOf (runOpsK envOf r.1 [.key 32 0]) .getCommit).2 = ⟨true, [0xef, 0xbc, 0xa1]⟩ := by
+  decide
+
+/-- (d) **a letter typed while Caps Lock is on** (ascii composer with a Caps_Lock switch style, good_old_caps_lock off): the key
+is handled and exactly one character — the letter with its case swapped, through the shape formatter — is appended to the
+commit buffer; the context is untouched. -/
+theorem ascii_capslock_letter_delivered_once (env : Env) (st : AcStyle) (k : Key) (c : Ctx)
+    (hkey : k.code ≠ xkCapsLock) (hcaps : k.caps = true) (hgood : env.goodOldCapsLock = false) (hrel : k.release = false)
+    (hctrl : k.ctrl = false) (hal : isAsciiAlpha k.code = true) :
+    acCapsLock env st k c = ({ c with commitBuf := c.commitBuf ++ env.format [swapCase k.code] }, .accepted) := by
+  unfold acCapsLock
+  simp [hkey, hcaps, hgood, hrel, hctrl, hal]
+
+/-- (d) the end of the ascii composer's temporary inline mode (its context-update listener) delivers nothing -/
+theorem ascii_inline_end_delivers_nothing (c : Ctx) : (acSettle c).commitBuf = c.commitBuf :=
+  acSettle_commitBuf c
+
+/-- non-vacuity: Caps_Lock is `clear`; with Caps Lock on (Lock bit set) `a` is delivered as `A`, once, and nothing is composed -/
+example :
+    let env : Env := { pageSize := 5, alphabet := [97], initials := [97], processors := [.asciiComposer, .speller, .expressEditor],
+                       asciiKeys := [(xkCapsLock, .clear)] }
+    let r := apiStepK (fun _ => env) {} (.key 97 kLock)
+    r.2.ok = true ∧ r.1.commitBuf = [65] ∧ r.1.isComposing = false ∧
+    (apiStepK (fun _ => env) r.1 .getCommit).2 = ⟨true, [65]⟩ ∧
+    (apiStepK (fun _ => env) (apiStepK (fun _ => env) r.1 .getCommit).1 .getCommit).2 = ⟨false, []⟩ := by
   decide
 
 /-- (d) `get_commit` returns the whole buffer and empties it; with an empty buffer it returns nothing -/
